@@ -498,6 +498,7 @@ struct AllocEngine : run::Engine {
 		cov.set("exhaustive", true);
 		cov.set("exhaustive_over", "every single allocation index 1..N of every catalogue operation (N measured by a counting run); the multi-fault sets on top are sampled");
 	}
+	std::string state_measure() const override { return "(catalogue operation, transport variant, outcome class: not reached / error returned / fault absorbed) per run"; }
 	std::string nontrivial_rule() const override { return "one evaluation = one catalogue operation run from a fresh setup with a chosen set of allocation indices failing; non-trivial = at least one failure was actually injected (the index was reached); distinct = distinct (operation, transport, fault set, event log)"; }
 };
 
